@@ -1383,4 +1383,21 @@ theorem failed_create_changes_nothing_repaired {env : Env} (hv : env.v.fixReturn
   failed_create_changes_nothing_fixed hv hinj st (Or.inl ha) hi r (Or.inl ha) ch
     (apartOp_of_fixKeep hk st (.create r) ch) hfail
 
+/-- **N4 (pinned `CreateHandler`).**  `foo` is stored; `create b from FOO`: `parseFromModel` looks for the
+    manifest of `FOO` as written, finds none, pulls `FOO` (the registry serves it) and builds `b` on it — two
+    listed models that differ only by letter case, made by API operations alone (in the model: `pullAt` on the
+    unresolved FROM name followed by `createAt`, which is how the oracle computes this request).  Repaired
+    (`proposed_fixes/C04-N4.patch`): the FROM name goes through `getExistingName` first and resolves to `foo`,
+    which is in the store, so nothing is pulled. -/
+theorem N4_from_pull_witness :
+    let s0 := run rEnv Store.empty [(.upload ⟨.colon, "G"⟩ gG, ch0), (mk (nm "library" "foo") .colon, ch0)]
+    let p := pullAt rEnv s0 (nm "library" "FOO") (some regM) [("G", gG), ("C", [67])]
+    let c := createAt rEnv p.1 ⟨nm "library" "b", some (nm "library" "FOO"), [], none, none, [], [], []⟩
+      (nm "library" "b") false
+    s0.man (nm "library" "FOO") = none ∧ p.2 = ["s"] ∧ c.2 = ["s"] ∧
+    (listed c.1).contains (nm "library" "foo") = true ∧ (listed c.1).contains (nm "library" "FOO") = true ∧
+    (nm "library" "foo").equalFold (nm "library" "FOO") = true ∧ incompleteB c.1 = false ∧
+    resolveName rEnv s0 [] (nm "library" "FOO") = nm "library" "foo" ∧
+    (s0.man (resolveName rEnv s0 [] (nm "library" "FOO"))).isSome = true := by decide +kernel
+
 end OllamaVerif.C04
